@@ -50,8 +50,8 @@ def cut(b, lens):
 
 def line_for(mode, chunks):
     cs = ",".join(fw.hexs(c) for c in chunks) if chunks else "-"
-    if mode == "ws":
-        return "xread ws " + cs
+    if mode in ("ws", "wl"):
+        return "xread %s %s" % (mode, cs)
     return "xread bd %d %s" % (mode, cs)
 
 
@@ -65,6 +65,8 @@ def gen_cases(ctx):
             b = bytes(tup)
             for lens in comps:
                 cases.append(("ws", b, lens))
+                if n <= maxlen - 1:
+                    cases.append(("wl", b, lens))      # the whole-line reader of -I (same state machine, blanks inside a line kept)
     # byte-delimited modes: shorter exhaustive sweep
     for d in (0, 10, 0x61):
         alpha = [d, 0x62, 0x20, 0x27, 0x5C, 0xC3] if d != 0x20 else [d, 0x62]
@@ -86,7 +88,7 @@ def gen_cases(ctx):
             l = max(1, min(l, left))
             lens.append(l)
             left -= l
-        mode = rng.choice(["ws", "ws", "ws", 0, 10, 0x20, 0x27])
+        mode = rng.choice(["ws", "ws", "ws", "wl", "wl", 0, 10, 0x20, 0x27])
         cases.append((mode, b, lens))
     if not ctx.thorough:
         # keep the quick tier to about a minute: sample the exhaustive part down deterministically
@@ -107,7 +109,7 @@ def compare(ctx, cases):
         mode, b, lens = c
         nontriv = any(x in SPECIAL or x == mode for x in b)
         ctx.count((mode, b, tuple(lens)), nontriv,
-                  ["mode=%s" % ("ws" if mode == "ws" else "delim"), "len=%s" % ("0-3" if len(b) <= 3 else "4-6" if len(b) <= 6 else "7+"),
+                  ["mode=%s" % (mode if mode in ("ws", "wl") else "delim"), "len=%s" % ("0-3" if len(b) <= 3 else "4-6" if len(b) <= 6 else "7+"),
                    "result=%s" % (m.split(" ")[0])])
         if i != m:
             bad.append((c, li, i, m))
